@@ -65,5 +65,13 @@ for _pid, _txt in {
 }.items():
     TEXTS[_pid] = {"engine": "lean-model+extract+harness(hook scheduler)", "design_ref": "4/" + _pid, "technique": _SCHED_TECH, "text": _txt, "note": _SCHED_NOTE}
 
+TEXTS["C20"] = {
+    "engine": "lean-model+harness(synctest)",
+    "design_ref": "4/C20",
+    "technique": "Lean 4 model of WatchSet.Wait as oracle-resolved blocking selects over virtual time; differential check against the real WatchSet under testing/synctest; direct oracle for each clause (subset, closedness, exact removal, error reporting)",
+    "text": "Generated sequences of Add/Clear/Wait with channels closing before and during the waits at chosen virtual instants, settle windows and context deadlines are executed on the real WatchSet in a synctest bubble and on the model; returned sets, error flags, return times and the set afterwards (Has for every channel) are compared, and each clause of the property is checked directly on the implementation.",
+    "note": "Translation validation until the theorems over Model.WatchSet are finished.",
+}
+
 # every property not in TEXTS/PROPS must be listed here with a reason
 NOT_APPLICABLE = []
